@@ -1,5 +1,6 @@
 (* C01 — physical layout: label, visible records and segments are well-formed. Statements only. *)
 From DV Require Import Model.Reader Proofs.SegmentP.
+From DV Require Import Model.ApiDispatch Model.FileReader Proofs.FileP.
 
 (* Declarative layout of a file under configuration c: the 80-byte label the configuration prescribes, then a whole
    number of visible records (marker FF 01, length even, 20..max, body tiled exactly by well-formed segments:
@@ -39,8 +40,18 @@ Example C01_ex : exists bs,
   /\ zlen bs = 80 + 24 + 3 * 20.
 Proof. eexists. split; [vm_compute; reflexivity | reflexivity]. Qed.
 
+(* END TO END over the modelled API: after any sequence of API calls and earlier writes (run_actions from the empty
+   file), whatever DLISFile.write returns — for any write options and either mode — has the standard layout: 80-byte label, then visible records each within the declared maximum length whose segments are well formed. *)
+Theorem C01_api_layout : forall l ps hc w st' bs,
+  let st := snd (run_actions ps b_init l) in
+  write hc st w = (st', OK bs) ->
+  let cfg := {| sul_seq := w_seq w; sul_vrl := w_vrl w; sul_id := w_ident w |} in
+  Layout cfg bs.
+Proof. intros l ps hc w st' bs st H cfg. exact (proj1 (every_written_file_is_readable l ps hc w st' bs H)). Qed.
+
 Print Assumptions C01_layout.
 Print Assumptions C01_reader_complete.
 Print Assumptions C01_checker.
 Print Assumptions C01_vr_bound.
 Print Assumptions C01_label.
+Print Assumptions C01_api_layout.
